@@ -164,6 +164,11 @@ impl std::error::Error for MemoryError {}
 #[derive(Debug)]
 pub struct MemoryBudget {
     total_limit: AtomicUsize,
+    /// Bytes reserved against `total_limit`. An allocation reserves here first (one CAS
+    /// against the limit) and only then grows its pool counter; a release shrinks the pool
+    /// counter first. So `sum of pool counters <= total_reserved <= total_limit` at all
+    /// times, also when different pools are charged concurrently.
+    total_reserved: AtomicUsize,
     cache_used: AtomicUsize,
     query_used: AtomicUsize,
     recovery_used: AtomicUsize,
@@ -190,6 +195,7 @@ impl MemoryBudget {
 
         Self {
             total_limit: AtomicUsize::new(limit),
+            total_reserved: AtomicUsize::new(0),
             cache_used: AtomicUsize::new(0),
             query_used: AtomicUsize::new(0),
             recovery_used: AtomicUsize::new(0),
@@ -260,27 +266,41 @@ impl MemoryBudget {
         let pool_counter = self.pool_counter(pool);
         let reserved = pool.reserved_size();
 
+        // The hard limit is enforced on a single counter: checking a sum of the pool
+        // counters and then bumping only this pool's counter lets concurrent allocations in
+        // different pools pass the same check and jointly exceed the limit.
+        let total_limit = self.total_limit();
+        let mut current_total = self.total_reserved.load(Ordering::Acquire);
         loop {
-            let current_pool_used = pool_counter.load(Ordering::Acquire);
-            let current_total_used = self.total_used();
-            let total_limit = self.total_limit();
-
-            let new_pool_used = current_pool_used + bytes;
-            let new_total_used = current_total_used + bytes;
-
-            if new_total_used > total_limit {
+            let new_total = current_total.saturating_add(bytes);
+            if new_total > total_limit {
                 bail!(MemoryError {
                     pool,
                     requested: bytes,
-                    available: total_limit.saturating_sub(current_total_used),
+                    available: total_limit.saturating_sub(current_total),
                 });
             }
+            match self.total_reserved.compare_exchange_weak(
+                current_total,
+                new_total,
+                Ordering::AcqRel,
+                Ordering::Acquire,
+            ) {
+                Ok(_) => break,
+                Err(actual) => current_total = actual,
+            }
+        }
+
+        loop {
+            let current_pool_used = pool_counter.load(Ordering::Acquire);
+            let new_pool_used = current_pool_used + bytes;
 
             if pool != Pool::Shared && new_pool_used > reserved {
                 let overflow = new_pool_used - reserved;
                 let shared_available = self.shared_available();
 
                 if overflow > shared_available {
+                    self.total_reserved.fetch_sub(bytes, Ordering::AcqRel);
                     bail!(MemoryError {
                         pool,
                         requested: bytes,
@@ -318,7 +338,12 @@ impl MemoryBudget {
                 Ordering::AcqRel,
                 Ordering::Acquire,
             ) {
-                Ok(_) => return,
+                Ok(_) => {
+                    // give back exactly what left the pool counter (release saturates)
+                    self.total_reserved
+                        .fetch_sub(current - new_value, Ordering::AcqRel);
+                    return;
+                }
                 Err(_) => continue,
             }
         }
@@ -359,6 +384,7 @@ impl MemoryBudget {
         self.recovery_used.store(0, Ordering::Release);
         self.schema_used.store(0, Ordering::Release);
         self.shared_used.store(0, Ordering::Release);
+        self.total_reserved.store(0, Ordering::Release);
     }
 }
 
